@@ -3,6 +3,7 @@
 from __future__ import annotations
 
 import ast
+import re
 
 from .callgraph import guards_of
 from .core import AnalysisError, const_str, norm, short
@@ -252,46 +253,57 @@ def check_codec(chk, repo, P):
         chk.require(form[0], R("K3"), f"{label}", f"codec is selected by dtype.kind ({form[1]})", f"codec is not selected by dtype.kind ({form[1]})", key=f"{label}:kind-dispatch")
 
     # ---------------------------------------------------------------- K4 tuples
-    pre = enc.func("preprocess")
-    branches = {}
-    for n in pre.own_nodes():
-        if isinstance(n, ast.Call) and isinstance(n.func, ast.Name) and n.func.id == "isinstance" and len(n.args) == 2:
-            t = norm(n.args[1])
-            # the branch body must recurse
-            st = n
-            while not isinstance(st, ast.If) and getattr(st, "_parent", None) is not None:
-                st = st._parent
-            rec = isinstance(st, ast.If) and any(isinstance(x, ast.Name) and x.id == "preprocess" for b in st.body for x in ast.walk(b))
-            branches[t] = rec
-    # path-wise: whenever the value is a container, the result is rebuilt from preprocess(element) - no path hands a container back as is
-    from .symexpr import Undecidable, show, summarize
-    try:
-        _, ppaths = summarize(pre.node)
-    except Undecidable as e:
-        raise AnalysisError(f"{enc.relpath}:preprocess outside the decidable fragment: {e}")
-    P0 = ("param", 0)
+    # preprocess evaluated on model values (whatever its shape: if-chain, early returns, map / comprehension / valmap): a tuple at
+    # any depth becomes the tagged document of its preprocessed elements, lists and dicts are rebuilt from their preprocessed
+    # members, everything else is handed back as it is
+    from collections import OrderedDict
+    from .shapes import Const, DictS, Interp, ListLit, ShapeError, TupS, _Raise
 
-    def container_kind(conds):
-        for c in conds:
-            t = c[1] if c[0] == "truth" else c
-            if t[0] == "call" and t[1] == ("name", "isinstance") and len(t[2]) == 2 and t[2][0] == P0 and c[0] != "not":
-                return show(t[2][1])
-        return None
+    def want_pre(v):
+        if isinstance(v, TupS):
+            return ("dict", (("__type__", ("c", "tuple")), ("data", ("list", tuple(want_pre(x) for x in v.elts)))))
+        if isinstance(v, ListLit):
+            return ("list", tuple(want_pre(x) for x in v.elts))
+        if isinstance(v, DictS):
+            return ("dict", tuple((k, want_pre(x)) for k, x in v.items.items()))
+        return ("c", v.v)
 
-    for conds, res in ppaths:
-        kind = container_kind(conds)
-        if kind is None or kind not in ("dict", "list", "tuple"):
+    def plain(v):
+        if isinstance(v, TupS):
+            return ("tuple", tuple(plain(x) for x in v.elts))
+        if isinstance(v, ListLit):
+            return ("list", tuple(plain(x) for x in v.elts))
+        if isinstance(v, DictS):
+            return ("dict", tuple((k, plain(x)) for k, x in v.items.items()))
+        if isinstance(v, Const):
+            return ("c", v.v)
+        return ("?", repr(v)[:40])
+    C = Const
+    models = [
+        ("a tuple", TupS([C(1), C("x")])),
+        ("an empty tuple", TupS([])),
+        ("a tuple in a tuple", TupS([C(1), TupS([C(2), TupS([])])])),
+        ("a tuple in a list", ListLit([C(1), C(2), TupS([C(3), C(4)])])),
+        ("a tuple after scalars in a list", ListLit([C("a"), C(None), ListLit([C(1)]), TupS([C(2)])])),
+        ("a list of tuples", ListLit([TupS([C(920), C(1000)]), TupS([C(1020), C(1100)])])),
+        ("a tuple in a dict in a list", ListLit([DictS(OrderedDict(k=TupS([C(1)])))])),
+        ("a list in a tuple", TupS([ListLit([C(1), TupS([C(2)])])])),
+        ("a dict of containers", DictS(OrderedDict([("a", TupS([C(1)])), ("b", ListLit([TupS([])])), ("c", DictS(OrderedDict(d=TupS([C("x")])))), ("e", C(1.5))]))),
+        ("an empty list", ListLit([])), ("an empty dict", DictS()),
+        ("a string", C("text")), ("an int", C(2 ** 63 - 1)), ("a float", C(0.1)), ("None", C(None)), ("a bool", C(True)),
+    ]
+    Ipre = Interp(repo)
+    fpre = Ipre.lookup("preprocess", Ipre.module_scope(enc))
+    for label, v in models:
+        try:
+            got = Ipre.call(fpre, [v], {})
+        except _Raise as e:
+            chk.fail(R("K4"), f"{enc.relpath}:preprocess", f"preprocess raises on {label} ({e.what[:80]})", key=f"preprocess:eval:{label}")
             continue
-        recurses = "'preprocess'" in repr(res)
-        chk.require(recurses, R("K4"), f"{enc.relpath}:preprocess", f"every path for a {kind} rebuilds it from preprocess(element)",
-                    f"for a {kind} there is a path ({' and '.join(show(c) for c in conds)[:120]}) that returns {show(res)[:60]} without visiting its elements: tuples nested in it are written as plain JSON lists",
-                    key=f"preprocess:{kind}:unvisited-path")
-    for t in ("dict", "list", "tuple"):
-        chk.require(branches.get(t) is True, R("K4"), f"{enc.relpath}:preprocess", f"preprocess recurses into {t}",
-                    f"preprocess does not recurse into {t}: tuples nested in a {t} are flattened to lists by json", key=f"preprocess:{t}")
-    tup = _tagged_dicts(pre).get("tuple")
-    chk.require(tup is not None and "data" in _dict_keys(tup), R("K4"), f"{enc.relpath}:preprocess", "tuples are tagged {'__type__': 'tuple', 'data': [...]}",
-                "tuple tag document lost its 'data' key", key="preprocess:doc")
+        except (ShapeError, RecursionError) as e:
+            raise AnalysisError(f"{enc.relpath}:preprocess cannot be evaluated on {label}: {str(e)[:100]}")
+        chk.require(plain(got) == want_pre(v), R("K4"), f"{enc.relpath}:preprocess", f"preprocess of {label}: tuples tagged at every depth, lists / dicts rebuilt, scalars unchanged",
+                    f"preprocess of {label} gives {plain(got)!r:.160}, expected {want_pre(v)!r:.160}: a tuple that is not tagged is written as a JSON list and comes back as a list", key=f"preprocess:eval:{label}")
     post = dec.func("postprocess")
     # the object hook evaluated on model documents: a tagged tuple document becomes the tuple of its data, anything else is handed back
     from collections import OrderedDict
@@ -320,21 +332,26 @@ def check_codec(chk, repo, P):
         else:
             chk.require(got is doc, R("K4"), f"{dec.relpath}:postprocess", f"postprocess hands a {label} document back unchanged",
                         f"postprocess turns a {label} document into {got!r:.80}: documents other than tagged tuples must pass through", key=f"postprocess:{label}")
-    # wiring
+    # wiring (form rule; the composition itself is evaluated in K8)
+    pre = enc.func("preprocess")
     efi = cach.func("encode")
     dfi = cach.func("decode")
     dumps = [c for c in calls_in(efi) if _fq(repo, efi, c.func) == "json.dumps"]
     ok_d = False
+    non_ascii = False
     for c in dumps:
         arg = Flow(efi).expand(c.args[0]) if c.args else None
         if arg is not None and isinstance(arg, ast.Call):
             cs = resolve_callees(repo, efi, arg.func)
             ok_d = any(x.func is pre for x in cs)
-            bad_kw = [k.arg for k in c.keywords if k.arg in ("default", "ensure_ascii", "skipkeys", "allow_nan")]
-            if any(k.arg == "ensure_ascii" and isinstance(k.value, ast.Constant) and k.value.value is False for k in c.keywords):
-                ok_d = False
-    chk.require(ok_d, R("K4"), f"{cach.relpath}:encode", "encode = json.dumps(preprocess(encode_hierarchy(obj)))",
-                "encode does not pass the document through preprocess before json.dumps (tuples become lists)", key="encode:wiring")
+        if any(k.arg == "ensure_ascii" and isinstance(k.value, ast.Constant) and k.value.value is False for k in c.keywords):
+            non_ascii = True
+    chk.require(not non_ascii, R("K6"), f"{cach.relpath}:encode", "the index text is pure ASCII (json.dumps escapes everything else)",
+                "json.dumps(..., ensure_ascii=False): the index text contains non-ASCII characters (unit strings) and is written / read with write_text / read_text / bytes.decode in "
+                "whatever encoding the process has - not the self-contained text a fresh process can decode", key="encode:ascii")
+    if not ok_d:
+        raise AnalysisError(f"{cach.relpath}:encode: json.dumps is not recognisably given preprocess(...); the tagging of tuples on the way out is not decided by the form rule")
+    chk.ok(R("K4"), f"{cach.relpath}:encode", "encode = json.dumps(preprocess(encode_hierarchy(obj)))")
     loads = [c for c in calls_in(dfi) if _fq(repo, dfi, c.func) == "json.loads"]
     ok_l = False
     for c in loads:
@@ -342,8 +359,9 @@ def check_codec(chk, repo, P):
             if k.arg == "object_hook":
                 cs = resolve_callees(repo, dfi, k.value)
                 ok_l = any(x.func is post for x in cs)
-    chk.require(ok_l, R("K4"), f"{cach.relpath}:decode", "decode = json.loads(text, object_hook=postprocess)",
-                "json.loads is not given object_hook=postprocess: tagged tuples stay dicts", key="decode:wiring")
+    if not ok_l:
+        raise AnalysisError(f"{cach.relpath}:decode: json.loads is not given object_hook=postprocess; where tagged tuples are restored is not decided by the form rule")
+    chk.ok(R("K4"), f"{cach.relpath}:decode", "decode = json.loads(text, object_hook=postprocess)")
 
     # ---------------------------------------------------------------- K5 coercion
     _check_coercion(chk, R("K5"), repo, enc)
@@ -385,15 +403,22 @@ def check_codec(chk, repo, P):
     for f in fields:
         if f in ("fs", "records_per_chunk"):
             continue
+        from .dataflow import is_access_path
         w = wdoc.get(f)
         w_ok = w is not None and (norm(w) in (f"obj.{f}", f"str(obj.{f})"))
+        if not w_ok and not (w is not None and is_access_path(w)):
+            # not written by a plain reference (built by a helper, a comprehension over field names, ...): the evaluation K8 compares the fields
+            raise AnalysisError(f"{enc.relpath}:encode_array: document[{f!r}] is written from {short(w) if w is not None else 'no recognisable entry'}; not decided by the form rule")
         chk.require(w_ok, R("K7"), f"{enc.relpath}:encode_array", f"document[{f!r}] is written from obj.{f}",
-                    f"document[{f!r}] is written from {short(w) if w is not None else 'nothing'}", key=f"array-field:{f}:write",
+                    f"document[{f!r}] is written from {short(w)}: another attribute of the array", key=f"array-field:{f}:write",
                     sample={"field": f, "writer": short(w) if w is not None else None})
         r = kw.get(f)
-        r_ok = r is not None and norm(flow.expand(r)).replace('"', "'") == f"{dparam}['{f}']"
+        rt = norm(flow.expand(r)).replace('"', "'") if r is not None else None
+        r_ok = rt == f"{dparam}['{f}']"
+        if not r_ok and not (r is not None and re.fullmatch(rf"{re.escape(dparam)}\['\w+'\]", rt or "")):
+            raise AnalysisError(f"{dec.relpath}:decode_array: Array.{f} is rebuilt from {rt or 'no recognisable argument'}; not decided by the form rule")
         chk.require(r_ok, R("K7"), f"{dec.relpath}:decode_array", f"Array.{f} is read back from {dparam}[{f!r}]",
-                    f"Array.{f} is rebuilt from {short(flow.expand(r)) if r is not None else 'nothing'} instead of {dparam}[{f!r}]", key=f"array-field:{f}:read")
+                    f"Array.{f} is rebuilt from {rt} instead of {dparam}[{f!r}]", key=f"array-field:{f}:read")
     chk.require("records_per_chunk" not in wdoc, R("K7"), f"{enc.relpath}:encode_array",
                 "records_per_chunk is not persisted in the index", "records_per_chunk is stored in the index document", key="array-field:records_per_chunk:persisted")
     return written, wdoc
